@@ -30,14 +30,20 @@ type PlanC13 struct {
 	// S2CSendCtxMs > 0: the server's sends have this context and the server-to-client link a small
 	// send buffer, so that a send may be given up in the middle of its write before the end
 	S2CSendCtxMs int `json:"s2c_send_ctx_ms,omitempty"`
+	// HighObs: the observing side of a server-initiated end (terms 1, 2) is a high-level Client, which
+	// closes the ended channel on its own when it replaces it
+	HighObs bool `json:"high_obs,omitempty"`
 }
+
+func (p *PlanC13) high() bool { return p.Term == 3 || (p.HighObs && (p.Term == 1 || p.Term == 2)) }
 
 func genC13(t *simrt.Tape, tier string) interface{} {
 	p := &PlanC13{Faults: NoFaults(), Back: NoFaults()}
 	p.Conf = GenFullConf(t, 1)
 	p.Cli = GenCliSpec(t, 1)
 	p.Term = t.Draw(5)
-	p.Cli.High = p.Term == 3
+	p.HighObs = t.Draw(3) == 0
+	p.Cli.High = p.high()
 	FixSelector(p.Conf.Listeners[0], &p.Cli)
 	p.AtMs = []int{0, 0, 1, 3, 20, 200, 2000}[t.Draw(7)]
 	if t.Draw(3) != 0 {
@@ -64,6 +70,10 @@ func genC13(t *simrt.Tape, tier string) interface{} {
 	if k := p.Conf.Listeners[0]; (k == "tcp" || k == "ws") && len(p.S2C) > 0 && t.Draw(5) == 0 {
 		p.S2CSendCtxMs = []int{20, 200, 900}[t.Draw(3)]
 		p.Back.Capacity = []int{64, 512}[t.Draw(2)]
+		// (no delivery pauses behind that small buffer: a pause of a second or more would also hold
+		// the finished envelope of Server.Close beyond the one second it allows - the recorded
+		// known finding, which this template is not about)
+		p.Back.Stalls = nil
 		if len(p.CliDelay) == 0 {
 			p.CliDelay = []int{300}
 		}
@@ -81,7 +91,7 @@ func runC13(w *World, pi interface{}) {
 	p.Conf.Listeners = p.Conf.Listeners[:1]
 	p.Cli.L = 0
 	p.Term = ((p.Term % 5) + 5) % 5
-	p.Cli.High = p.Term == 3
+	p.Cli.High = p.high()
 	FixSelector(p.Conf.Listeners[0], &p.Cli)
 	kind := p.Conf.Listeners[0]
 	nSrv := 0
